@@ -17,6 +17,7 @@ pub fn sigma07() -> Vec<char> {
         0x1C5, 0x1C6, 0x1F88, 0x1F80, // titlecase and their lowercase forms
         0x13A0, 0x5D0, // Cherokee, Hebrew
         0x09, 0x378, // invalid everywhere
+        0x1FF21, 0x13000, // bit-16 aliases of fullwidth A (unassigned) and of U+3000 (an assigned letter)
     ]
     .iter()
     .map(|c| char::from_u32(*c).unwrap())
@@ -230,7 +231,7 @@ pub fn run(env: &Env, run: &Run) -> (Stats, Coverage) {
     st.sample(json!({"profile": "UsernameCaseMapped", "a": ["U+0009"], "b": ["U+0378"], "expected": "Err(BadCodepoint{0x9,0,Disallowed}) - the first operand's error"}));
     st.sample(json!({"profile": "OpaqueString", "a": ["e", "U+0301"], "b": ["U+00E9"], "expected": "Ok(true)"}));
     let cov = Coverage {
-        rule: format!("all ordered pairs of the {} strings of length <= {} over 23 symbols (plus all strings one longer over the first 12 (quick) / 8 (thorough) interaction symbols) (case, width, spacing, canonical and compatibility variants of the same names, invalid strings) x 4 profiles, plus all ordered pairs of a, A, U+00E9, U+65E5 each repeated k times for k around 2^7, 2^8, 2^9, 2^10, 2^16 (length layer); oracle: usernames/OpaqueString = the implementation's own enforce on each operand (first operand's error first), Nickname = reference comparison pipeline (validate, space rule, lowercase, NFKC, iterated per RFC 8264 s.7); reflexivity/symmetry/transitivity checked directly on the first {} strings (all triples); non-trivial = distinct strings that compare equal", strs.len(), n, strs.len().min(run.tier.pick(150, 400))),
+        rule: format!("all ordered pairs of the {} strings of length <= {} over 25 symbols (plus all strings one longer over the first 12 (quick) / 8 (thorough) interaction symbols) (case, width, spacing, canonical and compatibility variants of the same names, invalid strings) x 4 profiles, plus all ordered pairs of a, A, U+00E9, U+65E5 each repeated k times for k around 2^7, 2^8, 2^9, 2^10, 2^16 (length layer); oracle: usernames/OpaqueString = the implementation's own enforce on each operand (first operand's error first), Nickname = reference comparison pipeline (validate, space rule, lowercase, NFKC, iterated per RFC 8264 s.7); reflexivity/symmetry/transitivity checked directly on the first {} strings (all triples); non-trivial = distinct strings that compare equal", strs.len(), n, strs.len().min(run.tier.pick(150, 400))),
         alphabet: json!(sigma.iter().map(|c| format!("U+{:04X}", *c as u32)).collect::<Vec<_>>()),
         bound_completed: format!("{} strings, {} ordered pairs x 4 profiles", strs.len(), strs.len() * strs.len()),
         exhaustive: false,
